@@ -30,7 +30,7 @@ SHARDS = {"quick": 4, "thorough": 16}
 GENERATOR = {"M": "10^U(-6, 9)", "tau": "10^U(-3, 5)", "window_end/tau": "U(0.6, 3)", "samples": "50..400"}
 ASSUMPTIONS = [
     "round trip: recovered to 1e-3 relative; closed-form optimum for a supplied tau to 1e-6 relative (1e-4 when the optimum lies on a bound, which the TRF optimiser only approaches)",
-    "known finding K3 is recognised by mechanism: data magnitude < 1e-2 AND the same problem rescaled to unit magnitude (through the real fit) round-trips",
+    "known finding K3 is recognised by mechanism: data magnitude < 1e-1 AND the same problem rescaled to unit magnitude (through the real fit) round-trips",
     "bounds with an infinite lower limit and a guess above the finite upper one make curve_fit raise: no fitted value exists, no claim is made, the count is reported",
 ]
 
@@ -326,7 +326,10 @@ def _k3(desc, f, t, y, tau_s=None, Mb=None):
     from bluebonnet.forecast import Bounds, ForecasterOnePhase
 
     mag = float(np.max(np.abs(y)))
-    if not 0 < mag < 1e-2:
+    # the stall is produced by curve_fit's ABSOLUTE gradient tolerance, so it fades out gradually
+    # with the data magnitude (0.4 % error observed at magnitude 1.1e-2); what identifies the
+    # mechanism is that the SAME problem at unit magnitude fits, not a sharp threshold
+    if not 0 < mag < 1e-1:
         return None
     try:
         if tau_s is None:
